@@ -673,6 +673,155 @@ def api_tie(run, src, exe):
     run.coverage.setdefault("input_distribution", {})["api_differential"] = dict(stats)
 
 
+# ------------------------------------------------------------------ fix_reference_nodes vs C05/Refs.v
+def refs_shape(src):
+    """Source-shape obligation for coq/C05/Refs.v (fail-closed, pure syntax): TreeCleaner._handle_reference_node_children
+    (a) hands the definition's nodes over by `for child in <name2children[K]>: ref_node.append_child(child)`, (b) empties a
+    node by `ref_node.children = []`, and (c) every access to the two bookkeeping tables name2children / ref_defined - in the
+    helper and in fix_reference_nodes - uses ONE key expression per function (the hand-over and the emptying are then driven
+    by the same key, which is what the model's `handover` = loop + emptying assumes).  Returns (ok, detail)."""
+    import ast
+    try:
+        tree = ast.parse(open(os.path.join(src, "mwlib/parser/treecleaner.py"), encoding="utf8").read())
+    except (OSError, SyntaxError) as e:
+        return False, "treecleaner.py cannot be parsed: %s" % e
+    funs = {n.name: n for n in ast.walk(tree) if isinstance(n, ast.FunctionDef)}
+    tables = ("name2children", "ref_defined")
+    detail = []
+    for fname in ("_handle_reference_node_children", "fix_reference_nodes"):
+        f = funs.get(fname)
+        if f is None:
+            return False, "TreeCleaner.%s not found" % fname
+        keys = {}
+        for n in ast.walk(f):
+            if isinstance(n, ast.Subscript) and isinstance(n.value, ast.Name) and n.value.id in tables:
+                keys.setdefault(ast.dump(n.slice), []).append("%s[..] line %d" % (n.value.id, n.lineno))
+            elif (isinstance(n, ast.Call) and isinstance(n.func, ast.Attribute) and n.func.attr in ("get", "setdefault", "pop")
+                  and isinstance(n.func.value, ast.Name) and n.func.value.id in tables and n.args):
+                keys.setdefault(ast.dump(n.args[0]), []).append("%s.%s line %d" % (n.func.value.id, n.func.attr, n.lineno))
+            elif isinstance(n, ast.Compare) and len(n.ops) == 1 and isinstance(n.ops[0], (ast.In, ast.NotIn)) \
+                    and isinstance(n.comparators[0], ast.Name) and n.comparators[0].id in tables:
+                keys.setdefault(ast.dump(n.left), []).append("in %s line %d" % (n.comparators[0].id, n.lineno))
+        if fname == "_handle_reference_node_children" and not keys:
+            return False, "%s does not use name2children / ref_defined" % fname
+        if len(keys) > 1:
+            return False, "%s indexes name2children / ref_defined by %d different key expressions: %s" % (
+                fname, len(keys), "; ".join("%s" % ", ".join(v[:3]) for v in keys.values()))
+        detail.append("%s: %d table accesses, one key" % (fname, sum(len(v) for v in keys.values())))
+    f = funs["_handle_reference_node_children"]
+    loop = [n for n in ast.walk(f) if isinstance(n, ast.For) and len(n.body) == 1 and isinstance(n.body[0], ast.Expr)
+            and isinstance(n.body[0].value, ast.Call) and isinstance(n.body[0].value.func, ast.Attribute)
+            and n.body[0].value.func.attr == "append_child" and isinstance(n.target, ast.Name)
+            and len(n.body[0].value.args) == 1 and isinstance(n.body[0].value.args[0], ast.Name)
+            and n.body[0].value.args[0].id == n.target.id]
+    clear = [n for n in ast.walk(f) if isinstance(n, ast.Assign) and len(n.targets) == 1 and isinstance(n.targets[0], ast.Attribute)
+             and n.targets[0].attr == "children" and isinstance(n.value, ast.List) and not n.value.elts]
+    if len(loop) != 1 or len(clear) != 1:
+        return False, "_handle_reference_node_children: %d append_child loops, %d `x.children = []` (modelled: one each)" % (len(loop), len(clear))
+    return True, "; ".join(detail) + "; one append_child loop, one emptying"
+
+
+REF_CONTAINERS = [8, 10, 24, 25, 26]
+
+
+def gen_refs_case(rng, cid):
+    """a small real tree with two named <ref>s: u (no content) and d (1..3 content subtrees), the same name and group (or, 25%,
+    different names), in either document order, next to other text and unnamed footnotes; expected result of the whole pass
+    fix_reference_nodes as operations of the model: u before d -> handover d u, then d (now empty) is removed; otherwise u
+    (empty) is removed"""
+    cls, par, kids = {}, {}, {}
+
+    def new(c, p, at=None):
+        i = len(cls) + 1
+        cls[i], par[i], kids[i] = c, p, []
+        if p:
+            kids[p].insert(len(kids[p]) if at is None else at, i)
+        return i
+
+    root = new(8, 0)
+    slots = [root]
+    for _ in range(rng.randint(0, 5)):
+        p = rng.choice(slots)
+        c = new(rng.choice(REF_CONTAINERS[1:]), p, rng.randint(0, len(kids[p])))
+        slots.append(c)
+        if rng.random() < 0.6:
+            new(1, c)
+    pu, pd = rng.choice(slots), rng.choice(slots)
+    u = new(9, pu, rng.randint(0, len(kids[pu])))
+    d = new(9, pd, rng.randint(0, len(kids[pd])))
+    for _ in range(rng.randint(1, 3)):
+        if rng.random() < 0.6:
+            new(1, d)
+        else:
+            s = new(rng.choice([25, 26]), d)
+            new(1, s)
+            if rng.random() < 0.3:
+                new(1, new(25, s))
+    vl = {}
+    for _ in range(rng.randint(0, 2)):          # unnamed footnotes (and ones with another name) keep their text
+        p = rng.choice(slots)
+        x = new(9, p, rng.randint(0, len(kids[p])))
+        new(1, x)
+        if rng.random() < 0.3:
+            vl[str(x)] = {"name": "z%d" % x}      # (a name of its own: a second definition of one name is merged by design)
+    same = rng.random() < 0.75
+    g = rng.choice([None, None, "g", ""])
+    for i, nm in ((u, "x"), (d, "x" if same else "y")):
+        vl[str(i)] = {"name": nm}
+        if g is not None:
+            vl[str(i)]["group"] = g
+    order = []
+    stack = [root]
+    while stack:
+        i = stack.pop()
+        order.append(i)
+        stack.extend(reversed(kids[i]))
+    if same and order.index(u) < order.index(d):
+        expect = [["h", d, u], ["r", pd, d]]
+    else:
+        expect = [["r", pu, u]]
+    n = len(cls)
+    return {"id": cid, "cells": [[i, cls[i], par[i], kids[i]] for i in range(1, n + 1)], "ops": [["f", root]], "expect": expect,
+            "vlist": vl, "text": "xy", "kind": ("same key, " + ("use first" if expect[0][0] == "h" else "definition first")) if same else "different names"}
+
+
+def refs_tie(run, src, exe):
+    ok, detail = refs_shape(src)
+    run.obligation("fix_reference_nodes has the shape modelled by coq/C05/Refs.v (one key for both bookkeeping tables)", ok, detail)
+    n = 1500 if run.tier == "quick" else 15000
+    import random
+    rng = random.Random(run.seed * 1000003 + 905)      # own stream (the documents of the monitor stay the same)
+    cases = [gen_refs_case(rng, i) for i in range(n)]
+    res = run_sharded("vt.harness.c05_api", [], cases, src)
+    outs = run_model(exe, [api_line(dict(c, ops=c["expect"])) for c in cases])
+    dis = []
+    stats = collections.Counter()
+    for c, o in zip(cases, outs):
+        r = res.get(c["id"])
+        stats[c["kind"]] += 1
+        if r is None or "harness_error" in r:
+            dis.append("harness: %r on %r" % (r, c))
+            continue
+        if not o or not o.startswith("H "):
+            dis.append("model output %r for %s" % (o, api_line(dict(c, ops=c["expect"]))))
+            continue
+        head, _, cells = o.partition(" ; ")
+        _h, k, st = head.split()
+        if r["status"] != "OK" or st != "OK" or int(k) != len(c["expect"]):
+            dis.append("status: impl %s (%s), model %s after %s ops: %r" % (r["status"], r.get("exc"), st, k, c))
+            continue
+        mc = []
+        for s in cells.split(";"):
+            t = [int(x) for x in s.split()]
+            if t:
+                mc.append([t[0], t[1], t[2], t[4:4 + t[3]]])
+        if mc != r["cells"]:
+            dis.append("heap after fix_reference_nodes differs: %r  impl %r  model %r" % (c, r["cells"], mc))
+    run.tie("TreeCleaner.fix_reference_nodes on real trees with a content-less and a defining <ref> of one name vs Refs.handover "
+            "(+ remove_child of the emptied / empty reference): final heap", n, dis)
+    run.coverage.setdefault("input_distribution", {})["fix_reference_nodes_differential"] = dict(stats)
+
+
 # ------------------------------------------------------------------ the check
 TRUSTED = [
     "Coq 8.16.1 kernel (coqc); vm_compute only in the non-vacuity Examples",
@@ -683,6 +832,8 @@ TRUSTED = [
     "reachable nodes changed (c05_impl.quick_fingerprint)",
     "the pass under test always gets 1000 interpreter frames (CPython's default recursion limit) below the harness (c05_impl.limited)",
     "coq/C05/Heap.v as a faithful restatement of advtree.py:94-150 (tie: differential run on real AdvancedNode objects)",
+    "coq/C05/Refs.v as a restatement of the hand-over in treecleaner.py _handle_reference_node_children (ties: syntactic shape "
+    "obligation on the current source + differential run of the real fix_reference_nodes against the model)",
     "CPython semantics of list slicing/insert/append, copy.deepcopy on a self-contained object graph",
 ]
 
@@ -706,12 +857,14 @@ def check(run):
                 % (len(G.SEEDS), G.DEEP_MAX))
     run.trusted = TRUSTED
     run.assumptions = ["the property's universal statement about the cleaner passes themselves is decided by exploration (verified "
-                       "monitor), not by proof; proved are the checker (wfb_spec, contract_spec) and the tree API the passes are built from",
+                       "monitor), not by proof; proved are the checker (wfb_spec, contract_spec), the tree API the passes are built from "
+                       "and the footnote hand-over of fix_reference_nodes (two references of one key)",
                        "articles are parsed with DummyDB (English siteinfo) plus five small templates"]
     src = core.snapshot()
     run.check_proofs("C05")
     exe = build()
     api_tie(run, src, exe)
+    refs_tie(run, src, exe)
     monitor(run, "c05", [1, 2, 3], src, exe)
     run.coverage["exhaustive"] = False
 
